@@ -54,7 +54,18 @@ func (r awReceiver) Recv(ctx context.Context) (*workflow.Event, workflow.Ack, er
 	}, nil
 }
 
+// runAwait: a wait that ran into its bound (the awaiting goroutine was not scheduled in time on a loaded machine, or
+// Await really does not return) is repeated once with a much longer bound before its answer is believed.
 func runAwait(kind string, a []string) string {
+	r, timedOut := runAwaitOnce(a, 3*time.Second)
+	if timedOut {
+		r, _ = runAwaitOnce(a, 25*time.Second)
+	}
+	return r
+}
+
+func runAwaitOnce(a []string, bound time.Duration) (string, bool) {
+	timedOut := false
 	ctx, cancel := context.WithCancel(context.Background())
 	defer cancel()
 	store := memrecordstore.New()
@@ -110,8 +121,12 @@ func runAwait(kind string, a []string) string {
 		// an event on Await's topic is either skipped (acknowledged) or releases the caller: wait for one of the two
 		if topicOf[i] == awTopic {
 			want := atomic.LoadInt64(&acks) + 1
-			deadline := time.Now().Add(3 * time.Second)
-			for atomic.LoadInt64(&acks) < want && time.Now().Before(deadline) && len(done) == 0 {
+			deadline := time.Now().Add(bound)
+			for atomic.LoadInt64(&acks) < want && len(done) == 0 {
+				if !time.Now().Before(deadline) {
+					timedOut = true
+					break
+				}
 				time.Sleep(50 * time.Microsecond)
 			}
 			time.Sleep(200 * time.Microsecond)
@@ -119,7 +134,7 @@ func runAwait(kind string, a []string) string {
 		select {
 		case r := <-done:
 			if r.err != nil {
-				return "err"
+				return "err", timedOut
 			}
 			released, got = i, r.status
 		default:
@@ -128,7 +143,7 @@ func runAwait(kind string, a []string) string {
 			break
 		}
 	}
-	return fmt.Sprintf("%d %d", released, got)
+	return fmt.Sprintf("%d %d", released, got), timedOut
 }
 
 func genAwait(p *params, emit func(string, bool)) {
